@@ -3,7 +3,7 @@ EXTENDS Signature
 CONSTANT MaxParams
 VARIABLES sig, done
 vars == <<sig, done>>
-Init == sig \in Sigs(MaxParams) /\ done = FALSE
+Init == sig \in Sigs(MaxParams) \cup ExtSigs /\ done = FALSE
 Next == ~done /\ done' = TRUE /\ UNCHANGED sig
 Spec == Init /\ [][Next]_vars
 \* the first-match fold accepts exactly the signatures C14 calls valid, and picks the stated source
